@@ -63,9 +63,12 @@ func (pe *plainEntries) iterate(ents []pb.Entry, maxIndex uint64,
 	size uint64, shardID uint64, replicaID uint64,
 	low uint64, high uint64, maxSize uint64) ([]pb.Entry, uint64, error) {
 	if low+1 == high && low <= maxIndex {
-		e, err := pe.getEntry(shardID, replicaID, low)
+		e, found, err := pe.getEntry(shardID, replicaID, low)
 		if err != nil {
 			return nil, 0, err
+		}
+		if !found {
+			return ents, size, nil
 		}
 		ents = append(ents, e)
 		size += uint64(e.SizeUpperLimit())
@@ -102,19 +105,24 @@ func (pe *plainEntries) iterate(ents []pb.Entry, maxIndex uint64,
 }
 
 func (pe *plainEntries) getEntry(shardID uint64,
-	replicaID uint64, index uint64) (pb.Entry, error) {
+	replicaID uint64, index uint64) (pb.Entry, bool, error) {
 	k := pe.keys.get()
 	defer k.Release()
 	k.SetEntryKey(shardID, replicaID, index)
 	var e pb.Entry
+	found := false
 	op := func(data []byte) error {
+		if len(data) == 0 {
+			return nil
+		}
 		pb.MustUnmarshal(&e, data)
+		found = true
 		return nil
 	}
 	if err := pe.kvs.GetValue(k.Key(), op); err != nil {
-		return pb.Entry{}, err
+		return pb.Entry{}, false, err
 	}
-	return e, nil
+	return e, found, nil
 }
 
 func (pe *plainEntries) getRange(shardID uint64,
